@@ -535,7 +535,18 @@ class LibMixin:
         d, k = args[0], z3.simplify(args[1])
         default = args[2] if len(args) > 2 else VNone
         r = Val.r(d)
-        return z3.If(self.dhas(r, k), self.dget(r, k), default)
+        val = self.dget(r, k)
+        rs = z3.simplify(r)
+        if any(z3.simplify(Val.r(h)).eq(rs) for h in
+               self.st.ghost.get("host_owned", []) + self.st.ghost.get("host_data_dicts", [])):
+            # values stored in a dictionary owned by the host program are host values
+            self.ctx.assume(z3.Implies(self.dhas(r, k), z3.Implies(Val.is_VRef(val), z3.And(
+                Val.r(val) > 0, Val.r(val) < self.st.next_id,
+                self.host_or_builtin_class(z3.Select(self.st.typeof, Val.r(val)))))))
+        vs = self.st.ghost.get("dict_value_sorts", {}).get(str(z3.simplify(d)))
+        if vs is not None and self.ctx.must(self.dhas(r, k)):
+            self.assume_shape(val, vs)
+        return z3.If(self.dhas(r, k), val, default)
 
     def b_dict_keys(self, args, kwargs, node, anchor):
         return self._dict_view(args[0], "keys")
